@@ -68,4 +68,4 @@ const fn table_wf_const() -> bool {
     }
     true
 }
-const _: () = assert!(table_wf_const());
+const _: () = { assert!(table_wf_const()) };
